@@ -455,7 +455,7 @@ def run_cases(cmd, cases, timeout=300, workers=None, env=None, chunk=None, crash
                 for i in idx:
                     results[i] = {"out": got.get(i, []), "crash": None}
                 return
-            if rc == 98 and got:
+            if rc == 96 and got:
                 # the harness asked for a fresh process after a case whose output is complete
                 # (vharness.h vh_request_restart)
                 started = [i for i in idx if i in got]
